@@ -226,6 +226,94 @@ def check_case(case, sanitize=False):
     return None, info
 
 
+# ---------------------------------------------------------------- two user types of different sizes
+
+def check_twoplain(case):
+    """Methods over two plain-array user types of different lengths (generator shared with C12): the same
+    built-ins and operations are applied to values of both types; every persistent variable is compared after
+    each run() call."""
+    import numpy as np
+    from checks import c12
+    from dagrt.exec_numpy import FailStepException, NumpyInterpreter, TransitionEvent
+    info = {}
+    try:
+        dag = c12.twotype_build(case)
+    except Exception as e:
+        return "CodeBuilder raised %s: %s" % (type(e).__name__, e), info
+    a, b = case["nested"], case["plain"]
+    fm = {"<func>f_" + a: (lambda t, y: -2 * y), "<func>f_" + b: (lambda t, y: -3 * y)}
+    interp = NumpyInterpreter(dag, fm)
+    interp.set_up(t_start=0.0, dt_start=1.0, context={a: np.ones(case["len_nested"]), b: 2 * np.ones(case["len_plain"])})
+    isteps = []
+    for _ in range(case["steps"]):
+        try:
+            for evt in interp.run_single_step():
+                pass
+        except FailStepException:
+            pass
+        except TransitionEvent as e:
+            interp.next_phase = e.next_phase
+        except Exception as e:
+            info["skip"] = "interpreter error: %s: %s" % (type(e).__name__, str(e)[:60])
+            return None, info
+        isteps.append({n: B.norm(v) for n, v in interp.context.items() if is_persistent(n)})
+    try:
+        cg, text = c12.twotype_generate(case, dag)
+    except Exception as e:
+        return "fortran.CodeGenerator raised %s: %s" % (type(e).__name__, str(e)[:160]), info
+    fields = F.parse_state_type(text)
+    nm = cg.name_manager
+    init_args = [("dagrt_t", 0.0), ("dagrt_dt", 1.0),
+                 (nm.name_global("<state>" + a), [1.0] * case["len_nested"]),
+                 (nm.name_global("<state>" + b), [2.0] * case["len_plain"])]
+    init_args = [(k, v) for k, v in init_args if k in fields]
+    res = F.compile_and_run(text, F.driver_source("m", fields, init_args, case["steps"]))
+    info["compiled"] = res["compile_ok"]
+    if not res["compile_ok"]:
+        errs = [l for l in res["compile_out"].split("\n") if "Error" in l or "error" in l]
+        return "the generated module does not compile: %s" % (" | ".join(errs[:3]) or res["compile_out"][-300:]), info
+    if res["rc"] == "timeout":
+        return "the compiled stepper did not finish within 60 s", info
+    if res["stderr"].strip():
+        return "Fortran program wrote to stderr: %s" % res["stderr"].strip()[:300], info
+    fsteps, done = F.parse_dump(res["stdout"])
+    if res["rc"] != 0 or not done or len(fsteps) != len(isteps):
+        return "Fortran program ended with status %s after %d of %d steps" % (res["rc"], len(fsteps), len(isteps)), info
+    for k, (ist, fs) in enumerate(zip(isteps, fsteps)):
+        for n, v in sorted(ist.items()):
+            fname = nm.name_global(n)
+            fv = fs.get(fname)
+            if fname not in fs:
+                return "after run() call %d: %s (%s) is not in the state dump" % (k + 1, n, fname), info
+            if n.startswith("<p>n_") and fv is not None and not isinstance(fv, tuple) and not isinstance(v, tuple):
+                # results of norm_2: a square root, computed by different code on the two sides
+                if abs(float(fv) - float(v)) <= 1e-9 * max(1.0, abs(float(v))):
+                    continue
+            if fv is None or not same_value(v, fv):
+                return "after run() call %d: %s is %s in Fortran, %s in the interpreter" % (
+                    k + 1, n, B.show(fv[:2]) if isinstance(fv, tuple) else B.show(fv), B.show(v)), info
+    info["steps_compared"] = len(isteps)
+    return None, info
+
+
+def twoplain_shard(ctx, n):
+    from checks import c12
+
+    def body(case):
+        msg, info = check_twoplain(case)
+        if "skip" in info:
+            ctx.count("twoplain skipped")
+            ctx.note(case, False, ["twoplain_skipped"])
+            return
+        kinds_ = {op[0] for op in c12._tt_walk(case["body"])}
+        ctx.note(case, "norm" in kinds_ or "abs" in kinds_, ["twoplain_run"] + ["twoplain_has_" + k for k in sorted(kinds_)])
+        ctx.count("steps_compared", info.get("steps_compared", 0))
+        if msg is not None:
+            ctx.fail("twoplain", case, msg, sig="twoplain " + sig_of(msg))
+
+    hyp_explore(ctx, c12.twotype_cases(plain2=True), body, n, "twoplain")
+
+
 def sig_of(msg):
     import re
     for key in ("does not compile", "CodeGenerator raised", "CodeBuilder raised", "did not finish", "wrote to stderr",
@@ -244,10 +332,14 @@ def sig_of(msg):
 
 
 def replay(sub, case):
+    if sub == "twoplain":
+        return check_twoplain(case)[0]
     return check_case(case)[0]
 
 
 def shrink(sub, case):
+    if sub == "twoplain":
+        return case
     from checks.c01 import shrink_method_case
     c = {"method": case["method"], "plan": {"max_steps": case["steps"]}}
 
@@ -295,5 +387,7 @@ def shard(ctx, n):
 def run(ctx):
     if ctx.quick:
         ctx.parallel(shard, 16, 64)
+        ctx.parallel(twoplain_shard, 16, 6)
     else:
         ctx.parallel(shard, 16, 1500)
+        ctx.parallel(twoplain_shard, 16, 300)
